@@ -85,17 +85,24 @@ Section Search.
         else RNorm (env6 n x (if N.ltb (fst e) x then 2 * idx + 2 else 2 * idx + 1) (entry_val e) VNil)
     end.
 
+  (* the search loop under ANY oracle that answers "getter" as ext_get does (it may answer other names too: the
+     callers of searchEytzinger use further externals) *)
+  Section AnyExt.
+  Variable ext : string -> list val -> option val.
+  Variable nmax : nat.
+  Hypothesis ext_getter : forall i, (i < nmax)%nat -> ext "getter" [VInt (Z.of_nat i)] = ext_get "getter" [VInt (Z.of_nat i)].
+
   Lemma se_iter f n x idx (e0 : env) :
     (e0 = env4 n x idx \/ exists kv ev, e0 = env6 n x idx kv ev) ->
-    Z.of_nat n < 4611686018427387904 -> (idx < n)%nat ->
-    exec prog ext_get f se_body e0 = iter_res n x idx.
+    Z.of_nat n < 4611686018427387904 -> (idx < n)%nat -> (n <= nmax)%nat ->
+    exec prog ext f se_body e0 = iter_res n x idx.
   Proof.
-    intros Hshape Hn Hidx.
+    intros Hshape Hn Hidx Hmax.
     assert (Hi : Z.of_nat idx < 4611686018427387904) by lia.
     assert (Hnat : Z.to_nat (Z.of_nat idx) = idx) by apply Nat2Z.id.
     unfold iter_res.
     destruct Hshape as [->|[kv [ev ->]]]; unfold se_body, env4, env6;
-      (go_run; unfold ext_get at 1; go_cbn; rewrite Hnat;
+      (go_run; rewrite ext_getter by lia; unfold ext_get at 1; go_cbn; rewrite Hnat;
        destruct (get idx) as [[h v]|]; [|go_run; reflexivity];
        unfold entry_val; go_run; cbn [fst snd]; rewrite of_N_eqb;
        destruct (N.eqb h x); [reflexivity|];
@@ -109,39 +116,45 @@ Section Search.
 
   Lemma se_loop_spec f : forall n x idx e0,
     (e0 = env4 n x idx \/ exists kv ev, e0 = env6 n x idx kv ev) ->
-    Z.of_nat n < 4611686018427387904 -> (n - idx < f)%nat ->
-    loop_res (search_get f get n x idx) (exec prog ext_get f se_loop e0).
+    Z.of_nat n < 4611686018427387904 -> (n - idx < f)%nat -> (n <= nmax)%nat ->
+    loop_res (search_get f get n x idx) (exec prog ext f se_loop e0).
   Proof.
-    induction f as [|f IH]; intros n x idx e0 Hshape Hn Hf; [lia|].
+    induction f as [|f IH]; intros n x idx e0 Hshape Hn Hf Hmax; [lia|].
     unfold se_loop. rewrite exec_for_S. fold se_loop. cbn [search_get].
     assert (Hc : eval e0 (ECmp CLt (EVar "index") (EVar "max")) = EV (VBool (Z.of_nat idx <? Z.of_nat n))).
     { destruct Hshape as [->|[kv [ev ->]]]; reflexivity. }
     rewrite Hc. cbn [of_eres]. rewrite of_nat_ltb.
     destruct (Nat.ltb idx n) eqn:Hlt.
     - apply Nat.ltb_lt in Hlt.
-      rewrite (se_iter (S f) n x idx e0 Hshape Hn Hlt). unfold iter_res.
+      rewrite (se_iter (S f) n x idx e0 Hshape Hn Hlt Hmax). unfold iter_res.
       destruct (get idx) as [e|]; [|reflexivity].
       destruct (N.eqb (fst e) x) eqn:Heq; [reflexivity|].
       rewrite exec_skip.
-      apply IH; [right; eexists; eexists; reflexivity|exact Hn|].
+      apply IH; [right; eexists; eexists; reflexivity|exact Hn| |exact Hmax].
       destruct (N.ltb (fst e) x); lia.
     - eexists. reflexivity.
   Qed.
 
   (* Go's searchEytzinger (min = 0, as every caller passes it) IS the model's search, for every entry oracle *)
-  Theorem searchEytzinger_is_search_get f n x :
-    Z.of_nat n < 4611686018427387904 -> (n < f)%nat ->
-    call prog ext_get f "searchEytzinger" [VInt 0; VInt (Z.of_nat n); VInt (Z.of_N x)] = enc (search_get f get n x 0).
+  Theorem searchEytzinger_is_search_get_ext f n x :
+    Z.of_nat n < 4611686018427387904 -> (n < f)%nat -> (n <= nmax)%nat ->
+    call prog ext f "searchEytzinger" [VInt 0; VInt (Z.of_nat n); VInt (Z.of_N x)] = enc (search_get f get n x 0).
   Proof.
-    intros Hn Hf. unfold call. rewrite prog_searchEytzinger. unfold fn_searchEytzinger.
+    intros Hn Hf Hmax. unfold call. rewrite prog_searchEytzinger. unfold fn_searchEytzinger.
     cbn [f_params f_body bind_params]. go_run.
     fold se_body. fold se_loop.
-    pose proof (se_loop_spec f n x 0 (env4 n x 0) (or_introl eq_refl) Hn ltac:(lia)) as H.
+    pose proof (se_loop_spec f n x 0 (env4 n x 0) (or_introl eq_refl) Hn ltac:(lia) Hmax) as H.
     unfold env4 in H. change (Z.of_nat 0) with 0 in H.
     destruct (search_get f get n x 0) eqn:Hs; cbn [loop_res] in H.
     - rewrite H. reflexivity.
     - destruct H as [e' ->]. go_run. reflexivity.
     - rewrite H. reflexivity.
   Qed.
+  End AnyExt.
+
+  Theorem searchEytzinger_is_search_get f n x :
+    Z.of_nat n < 4611686018427387904 -> (n < f)%nat ->
+    call prog ext_get f "searchEytzinger" [VInt 0; VInt (Z.of_nat n); VInt (Z.of_N x)] = enc (search_get f get n x 0).
+  Proof. intros Hn Hf. exact (searchEytzinger_is_search_get_ext ext_get n (fun _ _ => eq_refl) f n x Hn Hf (le_n n)). Qed.
 End Search.
 End Generic.
